@@ -9,28 +9,35 @@
 use crate::rng::Rng;
 
 pub const BRANCHES: usize = 12;
-pub const GLUES: usize = 19;
+pub const GLUES: usize = 21;
 
 #[derive(Clone, Debug)]
 pub struct Shape {
     pub links: Vec<(usize, usize)>,
     /// main has no parameter and nothing else is in scope at the start: statements may be closed
     pub closed: bool,
+    /// the chain is the body of a helper definition (its continuation is a covariable, not the
+    /// `exit` of main)
+    pub in_helper: bool,
 }
 
 impl Shape {
     pub fn random(rng: &mut Rng) -> Shape {
         let p = 1 + rng.below(3);
-        Shape { links: (0..p).map(|_| (rng.below(BRANCHES), rng.below(GLUES))).collect(), closed: rng.chance(1, 3) }
+        Shape { links: (0..p).map(|_| (rng.below(BRANCHES), rng.below(GLUES))).collect(), closed: rng.chance(1, 3), in_helper: rng.chance(1, 2) }
     }
     pub fn name(&self) -> String {
         let parts: Vec<String> = self.links.iter().map(|(b, g)| format!("{}/{}", BRANCH_NAMES[*b], GLUE_NAMES[*g])).collect();
-        format!("random shape [{}]{}", parts.join(" ; "), if self.closed { " in a closed main" } else { "" })
+        format!("random shape [{}]{}{}", parts.join(" ; "), if self.closed { " in a closed main" } else { "" }, if self.in_helper { " (body of a helper definition)" } else { "" })
     }
     pub fn to_code(&self) -> String {
-        format!("{}{}", if self.closed { "c:" } else { "" }, self.links.iter().map(|(b, g)| format!("{b}.{g}")).collect::<Vec<_>>().join(","))
+        format!("{}{}{}", if self.in_helper { "h:" } else { "" }, if self.closed { "c:" } else { "" }, self.links.iter().map(|(b, g)| format!("{b}.{g}")).collect::<Vec<_>>().join(","))
     }
     pub fn from_code(s: &str) -> Option<Shape> {
+        let (in_helper, s) = match s.strip_prefix("h:") {
+            Some(r) => (true, r),
+            None => (false, s),
+        };
         let (closed, s) = match s.strip_prefix("c:") {
             Some(r) => (true, r),
             None => (false, s),
@@ -44,7 +51,7 @@ impl Shape {
             }
             links.push((b, g));
         }
-        if links.is_empty() { None } else { Some(Shape { links, closed }) }
+        if links.is_empty() { None } else { Some(Shape { links, closed, in_helper }) }
     }
 }
 
@@ -53,7 +60,7 @@ pub const BRANCH_NAMES: [&str; BRANCHES] =
 pub const GLUE_NAMES: [&str; GLUES] =
     [
     "let", "else-branch", "clause", "operand", "print", "call-argument", "closure", "destructor", "objects-by-match", "label-result",
-    "one-clause-match-of-conditional", "one-clause-match-of-match", "body-of-applied-object", "bound-position", "scrutinee-argument", "condition", "goto-argument", "unused-let-of-call", "unused-let-of-branch",
+    "one-clause-match-of-conditional", "one-clause-match-of-match", "body-of-applied-object", "bound-position", "scrutinee-argument", "condition", "goto-argument", "unused-let-of-call", "unused-let-of-branch", "let-then-operation-over-rest", "let-then-constructor-over-rest",
 ];
 
 const DECLS: &str = "data P2 { Tup(a: i64, b: i64) }\ndata T3 { A, B, C }\ndata T5 { K1, K2(x: i64), K3(x: i64, y: i64), K4, K5(t: T3) }\ncodata Obj3 { m1: i64, m2(x: i64): i64, m3: Obj3 }\ncodata Fun { ap(x: i64): i64 }\ndef mk(n: i64): T3 { if n == 0 { A } else { if n == 1 { B } else { C } } }\ndef mk5(n: i64): T5 { if n == 0 { K1 } else { if n == 1 { K2(n) } else { if n == 2 { K3(n, n) } else { if n == 3 { K4 } else { K5(mk(n)) } } } } }\ndef obj(n: i64): Obj3 { new { m1 => n, m2(x) => x + n, m3 => obj(n + 1) } }\ndef id(x: i64): i64 { x }\ndef add3(a: i64, b: i64, c: i64): i64 { a + (b + c) }\n";
@@ -111,7 +118,11 @@ fn glue(g: usize, b: usize, i: usize, prev: &str, rest: &dyn Fn(&str) -> String)
         16 => format!("let {v}: i64 = {be};\n  label g{i} {{ if {v} == {i} {{ {i} }} else {{ goto g{i}(({})) }} }}", rest(&v)),
         // results that are never used (the continuation may mention no variable at all)
         17 => format!("let t{i}: T3 = mk({i});\n  {}", rest(prev)),
-        _ => format!("let {v}: i64 = {be};\n  {}", rest(prev)),
+        18 => format!("let {v}: i64 = {be};\n  {}", rest(prev)),
+        // a let over the branching expression whose body is an operation / a constructor application
+        // with the rest as operand / argument
+        19 => format!("let {v}: i64 = {be};\n  {v} + ({})", rest(&v)),
+        _ => format!("let {v}: i64 = {be};\n  Tup({v}, {}).case {{ Tup(c{i}, d{i}) => c{i} + d{i} }}", rest(&v)),
     }
 }
 
@@ -123,9 +134,10 @@ pub fn program(shape: &Shape, k: usize) -> String {
         let (b, g) = shape.links[i % shape.links.len()];
         glue(g, b, i, prev, &|np: &str| go(shape, i + 1, k, np))
     }
-    if shape.closed {
-        format!("{DECLS}def main(): i64 {{\n  {}\n}}\n", go(shape, 0, k, "7"))
-    } else {
-        format!("{DECLS}def main(a: i64): i64 {{\n  {}\n}}\n", go(shape, 0, k, "a"))
+    match (shape.closed, shape.in_helper) {
+        (true, false) => format!("{DECLS}def main(): i64 {{\n  {}\n}}\n", go(shape, 0, k, "7")),
+        (false, false) => format!("{DECLS}def main(a: i64): i64 {{\n  {}\n}}\n", go(shape, 0, k, "a")),
+        (true, true) => format!("{DECLS}def helper(): i64 {{\n  {}\n}}\ndef main(): i64 {{ helper() }}\n", go(shape, 0, k, "7")),
+        (false, true) => format!("{DECLS}def helper(a: i64): i64 {{\n  {}\n}}\ndef main(a: i64): i64 {{ helper(a) }}\n", go(shape, 0, k, "a")),
     }
 }
